@@ -152,6 +152,27 @@ Proof.
   - intros i D. eapply contained_delegation; eauto.
 Qed.
 
+(* ... with the enclosure of the question discharged: resolution starts at the servers of an ancestor
+   of the query name (searchCache: the last k labels of it, k = 0 for the root) and follows referrals
+   that passed validReferral *)
+Lemma containment_end_to_end k steps q m r ipv6 local :
+  let start := firstn k (q_name q) in
+  let auth := fst (descent start steps) in
+  let level := snd (descent start steps) in
+  valid_steps (q_name q) (descent_start start) steps ->
+  is_sub auth (rr_owner r) = false ->
+  ~ In r (relayed_answer auth q m) /\
+  ~ In r (cached_for q (relayed_answer auth q m)) /\
+  (forall o g, referral_glue ipv6 local level auth q m = Some (o, g) ->
+     ~ In (canon (rr_owner r)) (gr_found4 g ++ gr_found6 g ++ map fst (gr_addrs4 g) ++ map fst (gr_addrs6 g))) /\
+  (forall i, dispose auth q m = DReferral i ->
+     exists owner, di_owner i = Some owner /\ is_sub auth owner = true /\ name_eqb owner auth = false /\
+       is_sub owner (q_name q) = true /\ (In r (u_ns m) -> ~ is_ns r)).
+Proof.
+  intros start auth level Hv Hr.
+  exact (containment_all start steps q m r ipv6 local (descent_encloses _ _ _ Hv) Hr).
+Qed.
+
 (* ------------------------------------------------ the former counterexample *)
 (* evil.l1.'s server answers "x.evil.l1. A" with an alias to www.victim.l2. followed by an address
    for that name.  Before commit 767eb6f both records reached the client; now the tail is dropped,
